@@ -139,12 +139,12 @@ def _apply(tree, op, k, other_tree):
     return touched
 
 
-def _mk(key, rounds):
+def _mk(key, rounds, o1):
     src = SRCS[key]
 
-    def fn(k1: int, o1: int, k2: int, o2: int):
-        assume(0 <= o1 < len(OPS) and 0 <= o2 < len(OPS) and -1 <= k1 <= 40 and -1 <= k2 <= 40)
-        op1, op2 = OPS[pc.pin(o1, 0, len(OPS) - 1)], OPS[pc.pin(o2, 0, len(OPS) - 1)]
+    def fn(k1: int, k2: int, o2: int):
+        assume(0 <= o2 < len(OPS) and -1 <= k1 <= 40 and -1 <= k2 <= 40)
+        op1, op2 = OPS[o1], OPS[pc.pin(o2, 0, len(OPS) - 1)]
         kk1, kk2 = pc.pin(k1, -1, 40), pc.pin(k2, -1, 40)
         if op1 == 'none':
             assume(kk1 == 0)
@@ -207,7 +207,9 @@ FNR = ['fst.fst.FST.mark', 'fst.fst.FST.reconcile', 'fst.reconcile.Reconcile.rec
 CELLS = []
 for _k in SRCS:
     for _r in (1, 2):
-        CELLS.append(Cell(f'P1.reconcile[{_k},rounds={_r}]', _mk(_k, _r), 'P', FNR,
-                          f'carrier {_k} ({len(SRCS[_k].splitlines())} lines); script (k1, op1, k2, op2): node ordinals -1..40, {len(OPS)} mutation kinds each (symbolic, finite); {_r} mark/reconcile round(s)',
-                          tier='quick' if (_k, _r) in (('small', 1),) else 'thorough', budget=2400, per_path=90, out='mutation histories > 2 ops per round; programs outside the carriers',
-                          reset=pc.reset_globals))
+        for _o1 in range(len(OPS)):
+            CELLS.append(Cell(f'P1.reconcile[{_k},rounds={_r},first={OPS[_o1]}]', _mk(_k, _r, _o1), 'P', FNR,
+                              f'carrier {_k} ({len(SRCS[_k].splitlines())} lines); script: first mutation {OPS[_o1]} at node ordinal k1, second mutation (any of {len(OPS)} kinds) at k2; '
+                              f'ordinals symbolic in -1..40 (finite); {_r} mark/reconcile round(s)',
+                              tier='quick' if (_k, _r) == ('small', 1) and OPS[_o1] in ('none', 'expr_new', 'stmt_delete', 'stmt_swap_next', 'expr_foreign', 'rename') else 'thorough',
+                              budget=900, per_path=90, out='mutation histories > 2 ops per round; programs outside the carriers', reset=pc.reset_globals))
